@@ -120,4 +120,5 @@ class ConstantKernel(Kernel):
         if last_dim_is_batch:
             constant = constant.unsqueeze(-1)
 
-        return constant.expand(shape)
+        # the kernel's own batch shape takes part in the broadcast (it may have more, or larger, batch dims than the inputs)
+        return constant.expand(torch.broadcast_shapes(shape, constant.shape))
